@@ -489,19 +489,51 @@ def agree_for_space(name):
 
 # --------------------------------------------------------------------------------------- signature
 
+def _throws(entries):
+    for e in entries:
+        if e.startswith('s"throw'):
+            return e[2:-1].replace("throw-s:", "thrown string ").replace("throw:", "")
+    return None
+
+
+def _diff_kind(exp, obs, grid):
+    """Words for how an observed outcome differs (error behaviour first, then which observation)."""
+    le, _, te = exp.rpartition("|")
+    lo, _, to = obs.rpartition("|")
+    if to.startswith("Ehost") or to in ("Etime", "Ememory"):
+        return mismatch_kind(exp, obs)
+    a, b = le.split(";"), lo.split(";")
+    xe, xo = _throws(a), _throws(b)
+    if xe and not xo:
+        return "does not throw %s" % xe
+    if xo and not xe:
+        return "throws %s where no error is specified" % xo
+    if xe != xo:
+        return "throws %s where %s is specified" % (xo, xe)
+    if te[:1] == "E" or to[:1] == "E":
+        return mismatch_kind(exp, obs)
+    parts = []
+    if te != to:
+        parts.append("wrong result")
+    if grid and len(a) >= 2 and len(b) >= 2:
+        if a[-1] != b[-1]:
+            parts.append("wrong receiver contents afterwards")
+        if a[-2] != b[-2]:
+            parts.append("wrong result identity")
+        if a[:-2] != b[:-2]:
+            parts.append("callback call sequence/arguments differ")
+    elif a != b:
+        parts.append("logged contents differ")
+    return ", ".join(parts) or "differs"
+
+
 def signature(sp, cid, payload, exp, obs):
-    kind = mismatch_kind(exp, obs)
     le, lo = exp.rpartition("|")[0], obs.rpartition("|")[0]
     if "hist" in sp.name:
-        # first step whose observation differs
         se, so = le.split(";"), lo.split(";")
         steps = cid[len(H_HEAD):].split("L();")
-        k = 0
-        ei = 0
-        stmt = "?"
-        # walk entries: each step contributes an optional throw entry followed by one state entry
         pe = po = 0
-        for k, st in enumerate(steps[:-1]):
+        for st in steps[:-1]:
             ee, pe = _step_entries(se, pe)
             oo, po = _step_entries(so, po)
             if ee != oo:
@@ -511,22 +543,16 @@ def signature(sp, cid, payload, exp, obs):
                 elif len(oo) < len(ee):
                     how = "does not throw " + ee[0][2:-1].replace("throw:", "")
                 else:
-                    how = "leaves different contents"
-                return "hist|%s|%s" % (stmt, how), "history step `%s` %s" % (stmt, how)
+                    how = "leaves different contents in a/b/c"
+                return "hist|%s|%s" % (stmt, how), "history: first diverging step `%s` %s" % (stmt, how)
+        kind = mismatch_kind(exp, obs)
         return "hist|?|" + kind, "history: " + kind
     m = payload.get("m", "?") if isinstance(payload, dict) else "?"
     extra = ""
-    if isinstance(payload, dict):
-        if payload.get("cb"):
-            extra = " [" + payload["cb"] + "]"
-        elif payload.get("kind") and "views" not in sp.name:
-            extra = " [" + payload["kind"] + "]"
-    fam = "typed" if "typed" in sp.name else "array"
-    if kind == "log differs" or kind.startswith("wrong") or kind.startswith("returns") or kind.startswith("throws"):
-        # refine with the first differing log entry
-        how = _first_diff(le, lo)
-        if how:
-            kind = kind + "; " + how if kind != "log differs" else how
+    if isinstance(payload, dict) and payload.get("cb"):
+        extra = " [" + payload["cb"] + "]"
+    fam = "typed array" if "typed" in sp.name else "array"
+    kind = _diff_kind(exp, obs, "grid" in sp.name)
     return "%s|%s%s|%s" % (fam, m, extra, kind), "%s %s%s: %s" % (fam, m, extra, kind)
 
 
@@ -539,21 +565,3 @@ def _step_entries(entries, pos):
         if e[:1] == "[":
             break
     return got, pos
-
-
-def _first_diff(le, lo):
-    if le == lo:
-        return ""
-    a, b = le.split(";"), lo.split(";")
-    for x, y in zip(a, b):
-        if x != y:
-            if x.startswith('s"throw') and not y.startswith('s"throw'):
-                return "does not throw " + x[2:-1].replace("throw:", "").replace("throw-s:", "")
-            if y.startswith('s"throw') and not x.startswith('s"throw'):
-                return "throws " + y[2:-1].replace("throw:", "") + " where no error is specified"
-            if x.startswith('s"throw') and y.startswith('s"throw'):
-                return "catches %s where %s is specified" % (y[8:-1], x[8:-1])
-            if x in ("t", "f") and y in ("t", "f"):
-                return "identity/boolean observation differs"
-            return "logged value differs"
-    return "fewer log entries" if len(b) < len(a) else "more log entries"
